@@ -344,6 +344,9 @@ func (e *reuseEngine) Generate(seed uint64, tier string, run int) (json.RawMessa
 			if rg.Chance(0.3) {
 				op.N = 1 // the caller scribbles over its slice after Init
 			}
+			if rg.Chance(0.5) {
+				op.S = rg.Range(1, 11) // decoy
+			}
 		case "uiter":
 			op.Iter = rg.Intn(3)
 		case "unext":
@@ -1092,6 +1095,7 @@ type usegIter struct {
 	ref  []usegSeg
 	pos  int
 	done bool
+	end  int // end offset of the previous segment (protocol invariants)
 }
 
 type usegSeg struct {
@@ -1108,9 +1112,14 @@ type usegWorld struct {
 	iters  []*usegIter
 	model  [3][]usegSeg
 	nInit  int
+	// strict: also evaluate the iteration-protocol invariants against the input itself
+	strict bool
 }
 
 func (u *usegWorld) init() {}
+
+// texts whose end leaves the segmentation rules' look-behind state non-neutral
+var usegDecoys = []string{"", "\U0001F1EB", "12", "a ", "x\u200d", "(", "a\u0301", "\U0001F469\u200d", "\U0001F1EB\U0001F1F7\U0001F1EB", "1,", "a'", "\u05d0\""}
 
 func collectSegments(text []rune) (out [3][]usegSeg) {
 	var s segmenter.Segmenter
@@ -1147,7 +1156,15 @@ func (u *usegWorld) exec(op *ReuseOp, out *kernel.Outcome, trace *uint64) *kerne
 		u.text = text
 		u.passed = copyRunes(text)
 		u.iters = nil
+		// Another user of the package right before (a decoy text chosen to leave the rules'
+		// look-behind state non-neutral), and a neutral text before the reference model is
+		// computed: a state leak through package-level variables then shows as a difference.
+		if op.S > 0 && !kernel.ReferenceOnly {
+			protect(func() { collectSegments([]rune(usegDecoys[op.S%len(usegDecoys)])) })
+			out.Count("probe.useg_decoy_before_init", 1)
+		}
 		res := reused(func() { u.seg.Init(u.passed) })
+		protect(func() { collectSegments([]rune("x y")) })
 		ref := protect(func() { u.model = collectSegments(text) })
 		if res.panicked != ref.panicked {
 			return compare("uinit", res, ref, "", "", "")
@@ -1168,6 +1185,9 @@ func (u *usegWorld) exec(op *ReuseOp, out *kernel.Outcome, trace *uint64) *kerne
 	case "uiter":
 		if !u.inited || len(u.iters) >= 4 {
 			return nil
+		}
+		if op.S > 0 {
+			protect(func() { collectSegments([]rune(usegDecoys[op.S%len(usegDecoys)])) })
 		}
 		it := &usegIter{kind: op.Iter % 3}
 		switch it.kind {
@@ -1235,6 +1255,10 @@ func (u *usegWorld) step(it *usegIter, out *kernel.Outcome) *kernel.Violation {
 		return nil
 	}
 	if it.pos >= len(it.ref) {
+		if !has && u.strict && it.kind != 2 && it.end != len(u.text) && !kernel.ReferenceOnly {
+			return &kernel.Violation{Oracle: "iteration-protocol", Site: "useg:" + kindName + ":coverage",
+				Detail: fmt.Sprintf("%s iteration of %q ended at offset %d of %d: the segments do not concatenate to the input", kindName, string(u.text), it.end, len(u.text))}
+		}
 		if has {
 			return &kernel.Violation{Oracle: "fresh-equivalence", Site: "useg:" + kindName + ":extra",
 				Detail: fmt.Sprintf("reused segmenter yields extra %s %+v after the %d a fresh segmenter yields for %q", kindName, got, len(it.ref), string(u.text))}
@@ -1252,6 +1276,31 @@ func (u *usegWorld) step(it *usegIter, out *kernel.Outcome) *kernel.Violation {
 			Detail: fmt.Sprintf("%s #%d of %q: reused %+v, fresh %+v", kindName, it.pos, string(u.text), got, want)}
 	}
 	it.pos++
+	if u.strict {
+		// protocol invariants, evaluated against the input (not against the model)
+		n := len([]rune(got.text))
+		bad := ""
+		switch {
+		case n == 0:
+			bad = "empty segment"
+		case got.off < 0 || got.off+n > len(u.text) || string(u.text[got.off:got.off+n]) != got.text:
+			bad = "segment text is not the input slice at its offset"
+		case it.kind != 2 && got.off != it.end:
+			bad = fmt.Sprintf("segment starts at %d but the previous one ended at %d", got.off, it.end)
+		case it.kind == 2 && got.off < it.end:
+			bad = "word overlaps the previous one"
+		case got.mandatory && it.kind != 0:
+			bad = "mandatory flag outside line iteration"
+		case it.kind == 0 && got.off+n == len(u.text) && !got.mandatory:
+			bad = "the last line is not marked mandatory"
+		}
+		if bad != "" {
+			return &kernel.Violation{Oracle: "iteration-protocol", Site: "useg:" + kindName + ":protocol",
+				Detail: fmt.Sprintf("%s #%d of %q: %s (%+v)", kindName, it.pos-1, string(u.text), bad, got)}
+		}
+		it.end = got.off + n
+		out.Count("check.protocol", 1)
+	}
 	return nil
 }
 
